@@ -1,6 +1,9 @@
 import Driver.Proto
 import PqModel.Aad
 import PqModel.EncWalk
+import PqModel.EncConfig
+import PqModel.AadReader
+import PqModel.AadFile
 
 namespace Driver.Ops.C18
 open Driver PqModel.Aad
@@ -61,6 +64,94 @@ def parseWOp? (s : String) : Option WOp :=
     | _, _, _ => none
   | _ => none
 
+/-- one API call of a reader history: `r` = ReadPage, `s:<row>` = SeekToRow(row), `d` = ReadDictionary -/
+def parsePOp? (s : String) : Option POp :=
+  match s.splitOn ":" with
+  | ["r"] => some .readPage
+  | ["d"] => some .readDictionary
+  | ["s", row] => (parseNat? row).map .seek
+  | _ => none
+
+def presText : PRes × Nat → String
+  | (.page i cut, n) => s!"page:{i}:{cut}:{n}"
+  | (.eof, n) => s!"eof:{n}"
+  | (.done, n) => s!"done:{n}"
+
+/-- `aad.prun <rg> <col> <has dictionary 0/1> <offset index loaded 0/1> <rows per data page> <page is
+    dictionary-encoded 0/1, per data page> <call> ...` ->
+    `ok <result:…:modules opened so far, per call> <slot opened, in order> <all opened with the slot's arguments 0/1>` -/
+def handlePrun (rg col hasDict indexed rows enc : String) (ops : List String) : String :=
+  match parseNat? rg, parseNat? col, parseNat? hasDict, parseNat? indexed, parseCols? rows, parseCols? enc, ops.mapM parsePOp? with
+  | some rg, some col, some hd, some ix, some rows, some enc, some ops =>
+    let pc : PChunk := { c := { rg := rg, col := col, hasDict := hd != 0, npages := rows.length }, rows := rows,
+                         dictEnc := enc.map (· != 0), indexed := ix != 0 }
+    let out := prun pc ops
+    let good := out.1.r.log.all (fun e => e.used == e.slot.used)
+    s!"ok {showList presText out.2} {showList (fun (e : Ev) => slotText e.slot) out.1.r.log} {if good then 1 else 0}"
+  | _, _, _, _, _, _, _ => "bad-op"
+
+/-- a chunk of a file description: four characters 0/1 = sealed column metadata, column index,
+    offset index, bloom filter present -/
+def parseFChunk? (s : String) : Option FChunk :=
+  match s.toList with
+  | [a, b, c, d] =>
+    if [a, b, c, d].all (fun x => x == '0' || x == '1') then
+      some { sealedMeta := a == '1', hasCI := b == '1', hasOI := c == '1', hasBloom := d == '1' }
+    else none
+  | _ => none
+
+def parseFOp? (s : String) : Option FOp :=
+  match s.splitOn ":" with
+  | ["o", skip] => (parseNat? skip).map (fun n => .openFile (n != 0))
+  | ["ci", rg, col] => match parseNat? rg, parseNat? col with
+    | some rg, some col => some (.columnIndex rg col)
+    | _, _ => none
+  | ["oi", rg, col] => match parseNat? rg, parseNat? col with
+    | some rg, some col => some (.offsetIndex rg col)
+    | _, _ => none
+  | ["bf", rg, col] => match parseNat? rg, parseNat? col with
+    | some rg, some col => some (.bloom rg col)
+    | _, _ => none
+  | _ => none
+
+/-- `aad.frun <row groups separated by /, chunks by ,> <call> ...` (calls: `o:<skip page index 0/1>`
+    OpenFile, `ci:<rg>:<col>` ColumnIndex(), `oi:…` OffsetIndex(), `bf:…` BloomFilter()) ->
+    `ok <modules opened so far, per call> <slot opened, in order> <all opened with the slot's arguments 0/1>` -/
+def handleFrun (file : String) (ops : List String) : String :=
+  match (file.splitOn "/").mapM (fun rg => (rg.splitOn ",").mapM parseFChunk?), ops.mapM parseFOp? with
+  | some f, some ops =>
+    let out := frun f ops
+    let good := out.1.log.all (fun e => e.used == e.slot.used)
+    s!"ok {showList toString out.2} {showList (fun (e : Ev) => slotText e.slot) out.1.log} {if good then 1 else 0}"
+  | _, _ => "bad-op"
+
+/-- one token of an option structure: `E<id>` / `E-` = `WithEncryption(cfg)` / `WithEncryption(nil)`,
+    `S<id>` / `S-` = a configuration struct with / without the field, `O` = any other option,
+    `[` … `]` = `NewWriterConfig(…)` whose result is passed on as one struct option -/
+def parseCfgTok? (s : String) : Option PqModel.EncConfig.Tok :=
+  open PqModel.EncConfig in
+  match s with
+  | "O" => some (.opt .other)
+  | "[" => some .openG
+  | "]" => some .closeG
+  | "E-" => some (.opt (.withEnc none))
+  | "S-" => some (.opt (.config none))
+  | _ =>
+    if s.startsWith "E" then (parseNat? (s.drop 1).toString).map (fun n => .opt (.withEnc (some n)))
+    else if s.startsWith "S" then (parseNat? (s.drop 1).toString).map (fun n => .opt (.config (some n)))
+    else none
+
+/-- `enc.config <token> ...` -> `ok <id | ->` (the Encryption / Decryption field after
+    `NewWriterConfig` / `NewFileConfig` of the option structure) or `unbalanced` -/
+def handleCfg (toks : List String) : String :=
+  match toks.mapM parseCfgTok? with
+  | none => "bad-op"
+  | some ts =>
+    match PqModel.EncConfig.runToks ts with
+    | none => "unbalanced"
+    | some none => "ok -"
+    | some (some n) => s!"ok {n}"
+
 /-- `aad <prefix hex> <fileid hex> <module type> <rg> <col> <page>` -> `ok <aad hex>`
     (ordinals a module type does not carry are ignored)
 
@@ -70,6 +161,9 @@ def parseWOp? (s : String) : Option WOp :=
     `kind:rg:col:page:<module type passed>:<ordinals passed, dot separated>:<identifier generation | n>` -/
 def handle (toks : List String) : Option String :=
   match toks with
+  | "enc.config" :: cfg => some (handleCfg cfg)
+  | "aad.frun" :: file :: ops => some (handleFrun file ops)
+  | "aad.prun" :: rg :: col :: hasDict :: indexed :: rows :: enc :: ops => some (handlePrun rg col hasDict indexed rows enc ops)
   | "aad.wrun" :: ncols :: dict :: bloom :: reread :: plain :: ops => some <|
     match parseNat? ncols, parseCols? dict, parseCols? bloom, parseCols? reread, parseNat? plain, ops.mapM parseWOp? with
     | some ncols, some dict, some bloom, some reread, some plain, some ops =>
